@@ -86,6 +86,19 @@ class C07(Prop):
                 s_.append([None, t, d, rng.choice([LA, LA, LB])])
             for b in storelib.BACKENDS:
                 out.append(("epoch-stream", {"backend": b, "pt": rng.choice([0, 1, 2]), "stream": s_, "other": [[None, 0, 0, LB], [None, U, U, LA]]}))
+        # streams that begin before the epoch (negative instants) and run across it
+        for _ in range(ctx.pick(60, 1500)):
+            m = rng.randint(1, 7)
+            t, end, s_ = rng.choice([-20, -6, -3, -1]) * U, None, []
+            for i in range(m):
+                if i:
+                    t += rng.choice([1000, U, 2 * U, 5 * U])
+                d = max((end if end is not None else t) - t, 0) + rng.choice([0, 0, 1000, U, 3 * U])
+                end = t + d
+                s_.append([None, t, d, rng.choice([LA, LA, LB])])
+            for b in storelib.BACKENDS:
+                out.append(("pre-epoch-stream", {"backend": b, "pt": rng.choice([0, 1, 2, 10]), "stream": s_,
+                                                 "other": [[None, -30 * U, U, LB], [None, -2 * U, 4 * U, LA]]}))
         # day-scale durations, gaps and pulsetimes (timedelta keeps days, seconds and microseconds apart)
         DAY = 86_400 * U
         for _ in range(ctx.pick(60, 1500)):
